@@ -1,4 +1,4 @@
-HOOK_COMMITS = ["bcee830"]
+HOOK_COMMITS = ["bcee830", "e3854df"]
 NOT_APPLICABLE = {}
 TB = ("Trusted base: TLC; the TLA+ model of the documented format (spec/Plenc*.tla, written from README / wire.go comments / golden files, "
       "cross-checked by its own design invariants); the harness's format-agnostic reflect builder/projector.")
